@@ -109,7 +109,10 @@ def _ops(schema, is_polars):
             if is_polars and attr in ("report_duplicates",):
                 continue
             ops.append(("update_column", c, attr))
-        ops.append(("update_columns", c, "nullable"))
+        for attr, val in UPDATES:
+            if is_polars and attr in ("report_duplicates",):
+                continue
+            ops.append(("update_columns", c, attr))   # the plural method rebuilds the column through another code path
     ops.append(("select_all",))
     ops.append(("remove_columns", "__absent__"))
     ops.append(("rename_columns", "__absent__"))
@@ -155,7 +158,8 @@ def _apply(schema, op, is_polars):
         val = dict(UPDATES)[op[2]] if op[2] in dict(UPDATES) else True
         return schema.update_column(op[1], **{op[2]: val})
     if k == "update_columns":
-        return schema.update_columns({op[1]: {op[2]: True}})
+        val = dict(UPDATES)[op[2]] if op[2] in dict(UPDATES) else True
+        return schema.update_columns({op[1]: {op[2]: val}})
     if k == "update_column_name":
         return schema.update_column(op[1], name="other")
     if k == "set_index":
@@ -298,6 +302,17 @@ def _step(seed, schema, frame, op, is_polars, add):
             lost = sorted(k for k in b if k not in touched and b[k] != a.get(k))
             if lost:
                 add("attributes_preserved", f"{seed}:{opname}:column:{'+'.join(lost)}", f"{op}: column {cname}: {[(k, b[k], a.get(k)) for k in lost][:3]}"[:500])
+    if op[0] in ("update_column", "update_columns") and op[1] in after_cols and op[2] in dict(UPDATES):
+        want = dict(UPDATES)[op[2]]
+        got = getattr(after_cols[op[1]], op[2], None)
+        if op[2] == "checks":
+            ok_ = list(got or []) == list(want or [])
+        elif op[2] == "dtype":
+            ok_ = (got is None) == (want is None) and (want is None or "float" in str(got).lower())
+        else:
+            ok_ = FP.fingerprint(got) == FP.fingerprint(want)
+        if not ok_:
+            add("update_applied", f"{seed}:{opname}", f"{op}: requested {op[2]}={want!r}, the new schema has {got!r}")
     if op[0] == "set_index":
         moved = before_cols[op[1]]
         idx = res.index
